@@ -346,7 +346,7 @@ def c08_cfgs(tier):
         # wind-down (flags, camera stop, storage stop) races the client's next call
         c += [cfg('c08', b, prog=p, exposure_us=4500) for p in ('AswB', 'AswBsS', 'AswC', 'AswD', 'Asw0', 'AswX', 'AswsS', 'AswA', 'Aswa', 'AswS', 'Aswg') for b in ('D2', 1)]
         # ... and at the instant the filter and sink workers (10 ms polling period) notice the end and the source finishes its wind-down
-        c += [cfg('c08', b, prog=p, wait_us=10000) for p in ('AswB', 'AswBsS', 'AswC', 'AswD', 'Asw0', 'AswX', 'AswsS', 'AswA') for b in ('D2', 1)]
+        c += [cfg('c08', b, prog=p, wait_us=10000) for p in ('AswB', 'AswBsS', 'AswC', 'AswD', 'Asw0', 'AswX', 'AswsS', 'AswA', 'AswAsS', 'AswAS', 'AswAa') for b in ('D2', 1)]
         c += [cfg('c08', 'D2', prog=p) for p in ('AsS', 'Asa', 'AsBS', 'AsAS', 'AsCS', 'AsDS', 'AsXAsS', 'AsmSu', '2sa', '2sSA', 'FswAS', 'AswFwS', 'AsRsS')]
         return c
 
